@@ -11,7 +11,7 @@ import json
 import msgpack
 import cbor2 as cbor
 
-from typing import Any, Type, ClassVar
+from typing import Any, Type, ClassVar, get_type_hints
 from collections.abc import Callable
 from dataclasses import dataclass, astuple, asdict, fields, field, InitVar
 
@@ -50,7 +50,11 @@ def datify(cls, d):
         if callable(dat):
             return dat(d)
 
-        fieldtypes = {f.name: f.type for f in fields(cls)}
+        try:  # resolve postponed annotations (str) into types when possible
+            hints = get_type_hints(cls)
+        except Exception:
+            hints = {}
+        fieldtypes = {f.name: hints.get(f.name, f.type) for f in fields(cls)}
         return cls(**{f: datify(fieldtypes[f], d[f]) for f in d})  # recursive
     except Exception:  # Fields in dict d don't match dataclass or something else
         return d  # not a dataclass so end recursion and next level up will process
